@@ -99,6 +99,11 @@ func genC15(t *Tape) (*SrvScenario, *c15Info, bool) {
 			if !ok {
 				return nil, nil, false
 			}
+			if !t.Has("fc") && t.Chance(1, 10) {
+				// a frame with an unsupported function code in the stream: answered with an exception, and - like any
+				// other request - it must neither be answered early nor leave anything behind that disturbs the next one
+				r = genC16Req(t, "unsupported_fc", 0, byte(1+ci), tid)
+			}
 			if fc == 17 {
 				fc17 = true
 			}
@@ -233,7 +238,7 @@ func genC15(t *Tape) (*SrvScenario, *c15Info, bool) {
 		for ri := range sc.Conns[ci].Reqs {
 			if !t.Has("cutmask") && t.Chance(1, 5) {
 				sc.Conns[ci].Reqs[ri].Mode = HSlow
-				sc.Conns[ci].Reqs[ri].Work = time.Duration(1+t.Choose(30)) * time.Millisecond
+				sc.Conns[ci].Reqs[ri].Work = time.Duration(1+t.Choose(30)+60*t.Choose(2)) * time.Millisecond
 			}
 		}
 	}
